@@ -29,7 +29,7 @@ Qed.
 Lemma step_open i s s' : Inv s -> step i s = Some s' ->
   closed s' = false ->
   winners s' = [] /\ final s' = None /\ assigned s' = false /\ err s' = None /\ msg s' = None /\ done s' = false /\
-  wlog s' = [] /\ closer_ran s' = false /\ tstopped s' = false /\ attempts s' = [].
+  wlog s' = [] /\ closer_ran s' = false /\ tstopped s' = false /\ attempts s' = [] /\ taken s' = false.
 Proof.
   intros HI H.
   pose proof (i_new _ HI) as Hnew. pose proof (i_open _ HI) as Hopen.
@@ -76,17 +76,17 @@ Proof.
     destruct Hopen as (-> & ?). unfold res_of. cbn. intuition congruence.
   - (* CAssign *)
     exists i, v0, (CDone v). cbn. rewrite (nth_error_upd_eq _ _ _ _ Hp).
-    destruct Hph as (-> & Hnn & ? & ? & ? & Hd & Hwl & ? & ?). unfold res_of; cbn. rewrite Hwl, Hd.
+    destruct Hph as (-> & Hnn & ? & ? & ? & Hd & Hwl & ? & ? & ?). unfold res_of; cbn. rewrite Hwl, Hd.
     repeat split; auto; try (destruct (vpair v0); reflexivity); destruct v0; cbn; congruence.
   - (* CDone *)
     exists i, v0, (CCloser v). cbn. rewrite (nth_error_upd_eq _ _ _ _ Hp).
-    destruct Hph as (-> & ? & ? & ? & ? & ? & Hts). unfold stopped_ok, res_of in *; cbn. rewrite Hts.
+    destruct Hph as (-> & ? & ? & ? & ? & ? & Hts & ?). unfold stopped_ok, res_of in *; cbn. rewrite Hts.
     repeat split; auto; destruct (armed s); reflexivity.
   - (* CCloser *)
     exists i, v0, (CLock v). cbn. rewrite (nth_error_upd_eq _ _ _ _ Hp).
     unfold stopped_ok, res_of in *; cbn. intuition congruence.
   - (* CLock *)
-    destruct Hph as (-> & ? & Hr & ? & ? & ? & ?).
+    destruct Hph as (-> & ? & Hr & ? & ? & ? & ? & ?).
     exists i, v0, (match fwd s with [] => Done | n :: l0 => CTell (n :: l0) (msg s, err s) end).
     cbn. rewrite (nth_error_upd_eq _ _ _ _ Hp).
     unfold stopped_ok, res_of in *; cbn. destruct (fwd s); cbn; intuition congruence.
@@ -96,6 +96,13 @@ Proof.
   - (* CTell *)
     exists i, v0, (match l0 with [] => Done | _ :: _ => CTell l0 r end). cbn. rewrite (nth_error_upd_eq _ _ _ _ Hp).
     unfold stopped_ok, res_of in *; cbn. destruct l0; cbn; intuition congruence.
+  - (* PAppend: the holder of mu writes forwarders; the winner cannot have taken them yet *)
+    intros Hc'; cbn in Hc'.
+    destruct (i_win _ HI Hc') as (w & v & pw & Hw & Hf & Hpw & Hph).
+    assert (w <> i) by (intro; subst w; rewrite Hp in Hpw; injection Hpw as <-; cbn in Hph; tauto).
+    exists w, v, pw; cbn. rewrite nth_error_upd_ne by auto.
+    split; [exact Hw|split; [exact Hf|split; [exact Hpw|]]].
+    destruct HLi as (_ & _ & Htk). destruct pw; cbn in *; try tauto; intuition congruence.
 Qed.
 
 Lemma winner_phase s i p : Inv s -> nth_error (thr s) i = Some p -> close_pc p = true ->
@@ -109,13 +116,17 @@ Proof.
 Qed.
 
 Lemma step_mu i s s' : Inv s -> step i s = Some s' ->
-  forall j, mu s' = Some j -> exists fs, nth_error (thr s') j = Some (PLoad fs).
+  forall j, mu s' = Some j -> exists p, nth_error (thr s') j = Some p /\ holder_pc p = true.
 Proof.
   intros HI H.
   step_inv H; pose proof (i_loc _ HI _ _ Hp) as HLi; cbn in HLi; intros j Hm; cbn in Hm; try discriminate.
-  all: try (destruct (i_mu _ HI _ Hm) as [fs' Hfs]; assert (j <> i) by congruence; exists fs'; cbn;
-            try (apply nth_error_snoc_old); rewrite nth_error_upd_ne by auto; exact Hfs).
-  injection Hm as <-. exists fs. cbn. apply (nth_error_upd_eq _ _ _ _ Hp).
+  all: try (destruct (i_mu _ HI _ Hm) as (pj & Hj & Hh);
+            assert (j <> i) by (intro; subst j; rewrite Hp in Hj; injection Hj as <-; cbn in Hh; discriminate);
+            exists pj; split; auto; cbn;
+            try (apply nth_error_snoc_old); rewrite nth_error_upd_ne by auto; exact Hj).
+  - (* PLock *) injection Hm as <-. exists (PLoad fs). split; auto. cbn. apply (nth_error_upd_eq _ _ _ _ Hp).
+  - (* PLoad, open *) assert (j = i) by congruence. subst j.
+    eexists. split; [cbn; apply (nth_error_upd_eq _ _ _ _ Hp)|reflexivity].
 Qed.
 
 Lemma step_route i s s' : Inv s -> step i s = Some s' ->
